@@ -16,7 +16,7 @@ type violFn func(kind, finding, format string, a ...interface{})
 
 // allowed outcome classes of a request (the six documented ones, spelled out)
 var documented = map[string]bool{"ok": true, "errframe": true, "timeout": true, "ctx": true, "connclosed": true,
-	"nostreams": true, "nohosts": true, "readerr": true, "writeerr": true}
+	"nostreams": true, "nohosts": true, "readerr": true, "writeerr": true, "protoerr": true}
 
 func (r *run) checkResult(res CallerResult, rep *Report, viol violFn, finding string) {
 	rep.Classes[res.Class]++
@@ -128,6 +128,11 @@ func (r *run) waves(s *gocql.Session, pool *node.ServerConn, poolConn *gocql.Con
 		pool.PushEvent(node.TopologyChangeEvent{Change: "NEW_NODE", IP: net.ParseIP("10.0.0.1"), Port: 9042})
 	}
 
+	if h.HoldMs > 0 {
+		// the held answers stay held while the heartbeat timer fires
+		time.Sleep(time.Duration(h.HoldMs) * time.Millisecond)
+	}
+
 	// cancellations, the connection event and the release of the held answers, in a scripted order
 	closeDone := make(chan bool, 1)
 	closeDone <- true
@@ -183,6 +188,10 @@ func (r *run) waves(s *gocql.Session, pool *node.ServerConn, poolConn *gocql.Con
 		if h.Event == EvNone && h.TimeoutMs >= 1000 && h.CModes[i] == CNone && h.Fates[i] == FErr && results[i].Class != "errframe" &&
 			!(h.Proto < 3 && len(h.Fates) > 127) {
 			viol("outcome", "", "caller %s: ERROR frame sent by the node on a healthy connection ended with %s (%s)", results[i].Token, results[i].Class, results[i].Err)
+		}
+		if h.Event == EvNone && h.TimeoutMs >= 1000 && h.CModes[i] == CNone && h.Fates[i] == FWrongVer && results[i].Class != "protoerr" &&
+			!(h.Proto < 3 && len(h.Fates) > 127) {
+			viol("outcome", "", "caller %s: a response with another protocol version in its header ended with %s (%s), not with the protocol error", results[i].Token, results[i].Class, results[i].Err)
 		}
 		if (h.Fates[i] == FNever || h.Fates[i] == FLate) && (results[i].Class == "ok" || results[i].Class == "errframe") {
 			viol("token", "", "caller %s was handed a response (%q) although the node had not answered its request", results[i].Token, results[i].Seen)
